@@ -72,6 +72,11 @@ pub struct Outcome {
 
 impl Sim {
     pub fn new(rng: &mut Rng, n: usize, policy: Policy, end_fail: Option<usize>, hostile: bool) -> Sim {
+        Sim::new_with(rng, n, policy, end_fail, hostile, false)
+    }
+
+    /// `big_bufreader`: construct through a BufReader that holds more than the reader's default chunk
+    pub fn new_with(rng: &mut Rng, n: usize, policy: Policy, end_fail: Option<usize>, hostile: bool, big_bufreader: bool) -> Sim {
         let data = Rc::new(ident_data(n));
         let mut src = Src::new(data.clone(), policy, rng.next()).with_calls();
         if let Some(k) = end_fail {
@@ -89,7 +94,7 @@ impl Sim {
                 st.panic_at_call = Some(1 + rng.below(12));
             }
         }
-        let variant = rng.below(5);
+        let variant = if big_bufreader { 4 } else { rng.below(5) };
         let mut stream = vec![];
         let mut leftover = 0;
         let mut src_off = 0;
@@ -112,7 +117,13 @@ impl Sim {
             }
             _ => {
                 // partly consumed BufReader that still holds buffered bytes
-                let cap = 2 + rng.usize(200);
+                // small buffers, and buffers holding more than the reader takes over in one refill
+                // (its default chunk is 16384)
+                let cap = if big_bufreader || rng.chance(1, 3) {
+                    *rng.pick(&[4096usize, 16383, 16384, 16385, 20000, 40000, 70000][if big_bufreader { 3 } else { 0 }..])
+                } else {
+                    2 + rng.usize(200)
+                };
                 let mut br = BufReader::with_capacity(cap, src.clone());
                 let mut consumed = 0usize;
                 // never let the hostile behaviours fire inside the BufReader itself
@@ -133,7 +144,7 @@ impl Sim {
                     if blen == 0 {
                         break;
                     }
-                    let k = rng.usize(blen + 1);
+                    let k = if big_bufreader { rng.usize(blen.min(200) + 1) } else { rng.usize(blen + 1) };
                     br.consume(k);
                     consumed += k;
                     if k < blen {
@@ -379,12 +390,34 @@ impl Sim {
     }
 
     pub fn step(&mut self, op: &Op) -> Vec<String> {
-        let mut p = vec![];
         let before_len = self.r.buf_len();
         let was_ended = self.ended();
         // `leftover` bytes come from the Cursor of a chained BufReader buffer and are invisible in the
         // source log; discipline is judged only once the visible part is reached
         let judge_reads = self.exact_now();
+        // while bytes taken over from the BufReader are still to be handed out, a request they satisfy
+        // must not touch the source (a blocked terminal would otherwise hold back data that is there)
+        let left_in_front = self.leftover.saturating_sub(self.cursor);
+        let calls_before = self.log_pos;
+        let satisfied_by_leftover = match op {
+            Op::Request(n) => *n <= left_in_front,
+            Op::RequestByte => 1 <= left_in_front,
+            Op::RequestByteAt(k) => k.saturating_add(1) <= left_in_front,
+            _ => false,
+        };
+        let mut p = self.step_inner(op, judge_reads, before_len, was_ended);
+        if satisfied_by_leftover && self.log_pos > calls_before {
+            p.push(format!(
+                "[read-discipline] the source was called {} time(s) by a request that the {} bytes taken over from the BufReader satisfy",
+                self.log_pos - calls_before,
+                self.leftover
+            ));
+        }
+        p
+    }
+
+    fn step_inner(&mut self, op: &Op, judge_reads: bool, before_len: usize, was_ended: bool) -> Vec<String> {
+        let mut p = vec![];
         match op {
             Op::Request(n) => {
                 let (len, ptr) = sut(|| {
@@ -672,13 +705,27 @@ impl Monitor for C02 {
             6 => rng.usize(self.max_stream.min(200_000) + 1),
             _ => rng.usize(self.max_stream + 1),
         };
-        let policy = random_policy(rng, n);
-        let end_fail = if rng.chance(1, 3) {
+        let mut policy = random_policy(rng, n);
+        let mut end_fail = if rng.chance(1, 3) {
             Some(rng.usize(n + 1))
         } else {
             None
         };
-        let mut sim = Sim::new(rng, n, policy.clone(), end_fail, self.hostile);
+        // now and then: a BufReader that has buffered more than one default chunk (16384) of a long stream
+        let big = self.max_stream >= 100_000 && rng.chance(1, 25);
+        let n = if big { 20_000 + rng.usize(80_000) } else { n };
+        if big {
+            policy = if rng.chance(1, 2) {
+                Policy::OneShot
+            } else {
+                Policy::Random {
+                    mean_x10: 400_000,
+                    interrupts: rng.chance(1, 2),
+                }
+            };
+            end_fail = if rng.chance(1, 4) { Some(17_000 + rng.usize(n - 16_999)) } else { None };
+        }
+        let mut sim = Sim::new_with(rng, n, policy.clone(), end_fail, self.hostile, big);
         let n_ops = 50 + rng.usize(self.max_ops.saturating_sub(49).max(1));
         // initial chunk: small most of the time so that realign/shrink happen
         let c0 = match rng.below(6) {
@@ -729,6 +776,9 @@ impl Monitor for C02 {
         rep.count("ended_err", log.err_returned.min(1));
         rep.count("lying_reads", log.lies.len() as u64);
         rep.inc(&format!("variant:{}", sim.variant));
+        if sim.leftover > 16384 {
+            rep.inc("bufreader_held_more_than_one_chunk");
+        }
         // (only calls after the DeferredReader itself saw the end count; a BufReader may have seen it before)
         let _ = sim.cae_base;
         let nontrivial = sim.refills >= 3 && sim.mark_far_checks >= 1 && sim.shorts >= 1;
